@@ -120,6 +120,27 @@ CHECKS = [
         "single-block / eager result; differential execution of every split of every small member multiset into 2-3 blocks for all 23 "
         "chunk-capable built-ins and 19 user aggregations (lawful and unlawful) against the Lean model, a NumPy oracle and eager flox.",
         CORR, "DESIGN.md §7 C04"),
+    chk("C12",
+        "Second sentence (labels found at compute time): Lean theorems over the model `runUnknown` of the path taken for dask "
+        "labels without expected_groups (map-reduce without reindexing, _grouped_combine discovering the union of the blocks' "
+        "labels at every tree node, finalisation without expected groups): for every simple-combine reduction with a proven "
+        "Shape, EVERY chunking and split_every, the pair (discovered labels, values) equals (labels eager factorisation finds, "
+        "Spec.reduce over the eager codes) i.e. the eager mapping (unknown_labels_same_mapping, runUnknown_eq_spec); the "
+        "discovered labels are duplicate-free, exactly the non-missing labels, ascending for sort=True; chunking and tree are "
+        "irrelevant; the hypothesis 'some label is not missing' is necessary (hpres_counterexample = finding C12-F2: a spurious "
+        "NaN label). First sentence (laziness) is a runtime fact of the Python code and is OBSERVED, not proved: groupby_reduce, "
+        "groupby_scan and xarray_reduce are called with dask arrays whose every chunk raises+counts when evaluated (values, and "
+        "labels when chunked) under raising+counting schedulers, exhaustively over reduction x method x numpy|dask labels x "
+        "expected_groups x reindex (x engine in thorough) and over seeded random layouts (n-D, axis subsets, degenerate label "
+        "sets, scans, DataArray/Dataset); checked: zero chunk evaluations, zero scheduler invocations, a documented refusal or a "
+        "dask-backed result, group labels in-memory or lazy. The unknown-labels path is tied to /repo by differential execution "
+        "(real data, all chunkings, NaN/unsorted labels; exhaustive over label vectors on {1,2,missing} x chunkings, n<=4) of "
+        "groupby_reduce against the eager call, the Lean model and a NumPy oracle.",
+        "Lean 4 proof over a hand-written model (value half) + runtime instrumentation over an exhaustively enumerated "
+        "configuration grid (laziness half); correspondence (differential) tie; failing-input search",
+        "DESIGN.md §7 C12",
+        note=TB + " Laziness itself (that the Python call evaluates no chunk) cannot be expressed in the functional model: it is "
+                  "observed by instrumentation on every generated configuration, not proved."),
 ]
 
 _PENDING = "check not built yet in this round (planned: Lean model + correspondence, see DESIGN.md §7)"
